@@ -9,7 +9,8 @@ namespace Receptor.Forward
 def hopsOfFacts : HopRule :=
   { expireAt := if Receptor.Facts.fwd_expire_test = "HopsToLive <= 0" then 0 else 999999,
     decrement := Receptor.Facts.fwd_decrement,
-    noticeGuard := Receptor.Facts.fwd_notice_guard }
+    noticeGuard := Receptor.Facts.fwd_notice_guard,
+    pingGuard := Receptor.Facts.proto_ping_guard }
 
 /-- **Tie (translator)**: `forwardMessage` expires at `HopsToLive <= 0`, decrements the TTL
 byte by one after that test and before the send, and guards notices by
